@@ -21,6 +21,34 @@ class WorkerDeath(BaseException):
     """Raised inside a callback to simulate the death of the worker process."""
 
 
+class StandInUnsupported(Exception):
+    """The tree under test drives its processes through an interface this stand-in does not provide
+    (e.g. after a refactoring of the monitor loop).  Not a verdict about the implementation: the
+    checks fall back to real spawned processes."""
+
+
+def _standin_fault(exc):
+    """True when `exc` was caused by the stand-in's incompleteness rather than by the library."""
+    if isinstance(exc, (Hang, WorkerDeath)):
+        return False
+    if "Fake" in repr(exc) or "_Sentinel" in repr(exc):
+        return True
+    tb = exc.__traceback__
+    last = None
+    while tb is not None:
+        last = tb
+        tb = tb.tb_next
+    if last is not None and last.tb_frame.f_code.co_filename == __file__:
+        # raised by the stand-in itself: only the modelled behaviours are legitimate
+        return not (isinstance(exc, ValueError) and "is closed" in str(exc))
+    return False
+
+
+class _Sentinel:
+    def __init__(self, proc):
+        self.proc = proc
+
+
 class Sched:
     def __init__(self, assign=None, max_steps=200000, sched_seed=None):
         self.cv = threading.Condition()
@@ -36,6 +64,7 @@ class Sched:
         import random as _random
         self.rnd = _random.Random(sched_seed) if sched_seed is not None else None
         self.tls = threading.local()
+        self.unsupported = None    # set when a process failed because of the stand-in's incompleteness
         self.kill_merger = 0       # k > 0: the k-th merge process is killed before it runs (exit code -9)
         self.n_mergers = 0
         self.log = []              # (kind, who, what)
@@ -156,6 +185,8 @@ class FakeProcess:
         except BaseException as exc:      # an uncaught exception ends a real process with code 1
             self._exitcode = 1
             s.log.append(("died", self.t.name, repr(exc)[:120]))
+            if _standin_fault(exc):
+                s.unsupported = "%s: %r" % (self.t.name, exc)
         finally:
             with s.cv:
                 self.t.finished = True
@@ -167,6 +198,26 @@ class FakeProcess:
         if self.t.killed:
             return -9
         return self._exitcode
+
+    @property
+    def sentinel(self):
+        return _Sentinel(self)
+
+    @property
+    def pid(self):
+        return 100000 + self.sched.threads.index(self.t) if self.t in self.sched.threads else None
+
+    @property
+    def name(self):
+        return self.t.name
+
+    daemon = False
+
+    def terminate(self):
+        self.kill()
+
+    def close(self):
+        return None
 
     def kill(self):
         with self.sched.cv:
@@ -229,6 +280,21 @@ class FakeQueue:
     def empty(self):
         return not self.items
 
+    def qsize(self):
+        return len(self.items)
+
+    def full(self):
+        return self.maxsize > 0 and len(self.items) >= self.maxsize
+
+    def put_nowait(self, x):
+        return self.put(x)
+
+    def join_thread(self):
+        return None
+
+    def cancel_join_thread(self):
+        return None
+
 
 class FakeContext:
     def __init__(self, sched):
@@ -244,27 +310,71 @@ class FakeContext:
         return FakeProcess(self.sched, target, args, kwargs)
 
 
+def _fake_wait(sched):
+    def wait(object_list, timeout=None):
+        """multiprocessing.connection.wait on process sentinels: one scheduling round, then the
+        sentinels of the processes that have ended."""
+        objs = list(object_list)
+        for o in objs:
+            if not isinstance(o, _Sentinel):
+                raise StandInUnsupported("wait() on %r" % (o,))
+        sched.yield_point()
+        return [o for o in objs if not o.proc.is_alive()]
+    return wait
+
+
+class _Patched:
+    """helpers.get_context / helpers.sleep / helpers.wait replaced for the duration of one run
+    (only the names the module actually has)."""
+
+    def __init__(self, sched):
+        helpers = impl.helpers
+        if not hasattr(helpers, "get_context"):
+            raise StandInUnsupported("sketchnu.helpers has no name get_context to replace")
+        self.helpers = helpers
+        self.ctx = FakeContext(sched)
+        self.new = {"get_context": lambda _method=None: self.ctx, "sleep": lambda _s=0: sched.yield_point(),
+                    "wait": _fake_wait(sched)}
+        self.old = {}
+
+    def __enter__(self):
+        for name, val in self.new.items():
+            if hasattr(self.helpers, name):
+                self.old[name] = getattr(self.helpers, name)
+                setattr(self.helpers, name, val)
+        return self
+
+    def __exit__(self, *exc):
+        for name, val in self.old.items():
+            setattr(self.helpers, name, val)
+        return False
+
+
+def _run(sched, call):
+    with _Patched(sched):
+        try:
+            res = call()
+            outcome = "returned", res, sched
+        except Hang as exc:
+            outcome = "hang", exc, sched
+        except StandInUnsupported:
+            raise
+        except Exception as exc:
+            if _standin_fault(exc):
+                raise StandInUnsupported(repr(exc)) from exc
+            outcome = "raised", exc, sched
+    if sched.unsupported:
+        raise StandInUnsupported(sched.unsupported)
+    return outcome
+
+
 def run_parallel_add(items, callback, n_workers, cms_args=None, hh_args=None, hll_args=None, assign=None,
                      sched_seed=None, kill_merger=0, **kwargs):
     """Run the real helpers.parallel_add under the deterministic scheduler.
     Returns (outcome, value, sched): outcome in {"returned", "raised", "hang"}."""
-    helpers = impl.helpers
     sched = Sched(assign, sched_seed=sched_seed)
     sched.kill_merger = kill_merger
-    ctx = FakeContext(sched)
-    old_ctx, old_sleep = helpers.get_context, helpers.sleep
-    helpers.get_context = lambda _method=None: ctx
-    helpers.sleep = lambda _s=0: sched.yield_point()
-    try:
-        try:
-            res = helpers.parallel_add(items, callback, n_workers, cms_args, hh_args, hll_args, **kwargs)
-            return "returned", res, sched
-        except Hang as exc:
-            return "hang", exc, sched
-        except Exception as exc:
-            return "raised", exc, sched
-    finally:
-        helpers.get_context, helpers.sleep = old_ctx, old_sleep
+    return _run(sched, lambda: impl.helpers.parallel_add(items, callback, n_workers, cms_args, hh_args, hll_args, **kwargs))
 
 
 def current_worker(sched):
@@ -275,18 +385,5 @@ def current_worker(sched):
 def run_under_scheduler(fn, sched_seed=None):
     """Run fn(log_queue) with helpers.get_context / helpers.sleep replaced (used for direct calls of
     helpers.parallel_merging)."""
-    helpers = impl.helpers
     sched = Sched(None, sched_seed=sched_seed)
-    ctx = FakeContext(sched)
-    old_ctx, old_sleep = helpers.get_context, helpers.sleep
-    helpers.get_context = lambda _method=None: ctx
-    helpers.sleep = lambda _s=0: sched.yield_point()
-    try:
-        try:
-            return "returned", fn(FakeQueue(sched)), sched
-        except Hang as exc:
-            return "hang", exc, sched
-        except Exception as exc:
-            return "raised", exc, sched
-    finally:
-        helpers.get_context, helpers.sleep = old_ctx, old_sleep
+    return _run(sched, lambda: fn(FakeQueue(sched)))
